@@ -100,7 +100,7 @@ impl tokio::io::AsyncWrite for ShortWriter {
 
 /// Independent, strict HTTP/1.1 response parser (trusted base of the harness).
 #[derive(Debug, Clone, Default)]
-pub struct ParsedResponse { pub status: u16, pub reason: String, pub headers: Vec<(String, String)>, pub body: Vec<u8>, pub framing: String, pub consumed: usize, pub error: String }
+pub struct ParsedResponse { pub status: u16, pub reason: String, pub headers: Vec<(String, String)>, pub body: Vec<u8>, pub framing: String, pub consumed: usize, pub after: usize, pub error: String }
 
 pub fn find(h: &[u8], n: &[u8]) -> Option<usize> { if n.is_empty() { return Some(0) } h.windows(n.len()).position(|w| w == n) }
 
